@@ -2,6 +2,7 @@
 pub mod core;
 pub mod envmodel;
 pub mod fsutil;
+pub mod layermodel;
 pub mod props;
 pub mod tv;
 pub mod worker;
